@@ -272,6 +272,43 @@ fn main() {
             });
             println!("{:?}", out.value);
         }
+        "findc17" => {
+            // one-off generator: positions with a short forced mate, >= 2 mate-keeping first moves,
+            // one of which is a pawn move or a capture (used to extend the curated corpus)
+            use refchess::solve;
+            use std::collections::HashSet;
+            let secs: u64 = args.get(1).and_then(|s| s.parse().ok()).unwrap_or(30);
+            let empty: HashSet<String> = HashSet::new();
+            std::thread::scope(|sc| {
+                for t in 0..jobs {
+                    let empty = &empty;
+                    sc.spawn(move || {
+                        let mut rng = rng::Rng64::new(seed * 1000 + t as u64);
+                        let start = std::time::Instant::now();
+                        while start.elapsed().as_secs() < secs {
+                            let p = corpus::random_pawn_endgame(&mut rng);
+                            let Ok(Some(n)) = solve::mate_distance(&p, 3, empty, 60_000) else { continue };
+                            let mut keepers = Vec::new();
+                            for m in p.legal_moves() {
+                                if solve::move_keeps_mate(&p, m, n + 2, empty, 60_000) == solve::Answer::Yes {
+                                    keepers.push(m);
+                                }
+                            }
+                            if keepers.len() < 2 {
+                                continue;
+                            }
+                            let irreversible: Vec<&refchess::Mv> = keepers
+                                .iter()
+                                .filter(|m| (p.board[m.from as usize] & 7) == refchess::PAWN || p.board[m.to as usize] != refchess::EMPTY)
+                                .collect();
+                            if let Some(m) = irreversible.first() {
+                                println!("{} | n={} | keepers={} | irreversible={}", p.fen(), n, keepers.len(), m.uci());
+                            }
+                        }
+                    });
+                }
+            });
+        }
         "selfcheck" => {
             let what = args.get(1).map(|s| s.as_str()).unwrap_or("oracle");
             let code = match what {
